@@ -16,7 +16,7 @@ ASSUMPTIONS = ['input indices are naturals (negative inIdx is outside the proper
                'signature-check oracle arbitrary with checksig [] _ _ = false; hash outputs shorter than 2^31 bytes']
 RULE = ('uniformly random byte strings of length 0..10,001 for both scripts, structure-aware programs and their byte-level '
         'mutants, truncated pushes at every position of a valid script, P2SH-shaped scriptPubKeys with garbage and with matching '
-        'redeem scripts, all 16 flag sets (CLEANSTACK without P2SH = known finding F5, unconstrained), immutable and mutable '
+        'redeem scripts, scripts at each documented limit (201 ops, 1000 items through opcodes and through raw pushes, 520-byte push, 10000-byte script) in either position, all 16 flag sets (CLEANSTACK without P2SH = known finding F5, unconstrained), immutable and mutable '
         'transactions, input index 0 / 1 / out of range. non-trivial = constrained; distinct by case text')
 IN_COQ_SAMPLE = 30
 
@@ -81,6 +81,16 @@ def generate(rng, tier, boost):
             if rng.random() < 0.2:
                 ssig = G.mutate(rng, ssig)
             add(ssig, spk)
+    # the documented limits (op count, stack items through opcodes AND through raw data pushes, push size, script size)
+    for _st, sc in G.limit_cases(rng):
+        add(b'', sc)
+        add(b'\x51', sc)
+        add(sc, b'\x51')
+        add(sc, b'\x6a')                 # a failing opcode after the limit was crossed: the captured state
+    for n in (1000, 1001, 1500, 4001):
+        add(b'\x00' * n, b'\x51')
+        add(b'\x01\x07' * n, b'\x75' * 3 + b'\x6a')
+        add(b'\x51', b'\x00' * (n - 200) + b'\x6b' * 150 + b'\x00' * 200 + b'\x6a')
     # truncated pushes at EVERY position of one valid script
     base = b'\x51\x02\xaa\xbb\x75\x4c\x03\x01\x02\x03\x75\x63\x52\x67\x53\x68\x75\x4d\x02\x00\x09\x09\x75'
     for k in range(len(base) + 1):
